@@ -119,6 +119,17 @@ func (s *Mut) Apply(st *state.StateDB, op string, idx int) (ob string, ok bool) 
 		}
 		_, _, _, fl := st.UpdateDelegation(Acc[2], val, Tok(1, 3))
 		return fmt.Sprint(fl), true
+	case "dlg-(V2)": // full withdrawal from the validator that is FIRST in the delegator's sorted list
+		val := st.GetValidatorByMainAddr(ValAddr[2])
+		if val == nil {
+			return "absent", true
+		}
+		df := val.GetDelegationFrom(Acc[2])
+		if df == nil {
+			return "none", true
+		}
+		_, _, _, fl := st.UpdateDelegation(Acc[2], val, new(big.Int).Neg(df.Token))
+		return fmt.Sprint(fl), true
 	case "dlg-(V0)": // teDelegationSub: never more than what is there
 		val := st.GetValidatorByMainAddr(ValAddr[0])
 		if val == nil {
